@@ -69,6 +69,85 @@ Proof. exact sin_odd_flocq. Qed.
 Check sin_odd : forall x, canonical x -> s_sin flocq_prims (s_neg x) = s_neg (s_sin flocq_prims x).
 Print Assumptions sin_odd.
 
+(* The second copy of the canonicalisation policy (echo-wasm-abi codec) is the same function. *)
+Theorem codec_canonicalize_agrees : forall b, codec_canonicalize_f32 b = new b.
+Proof. exact codec_canonicalize_is_new. Qed.
+Check codec_canonicalize_agrees : forall b, codec_canonicalize_f32 b = new b.
+Print Assumptions codec_canonicalize_agrees.
+
+(* The checked-in quarter-wave table (regenerated from trig_lut.rs): 1025 entries from +0.0 to 1.0,
+   non-decreasing, every entry within [0, 1]. *)
+Theorem sin_table_facts :
+  length SIN_QTR_LUT_BITS = 1025%nat /\ SIN_QTR_SEGMENTS = 1024 /\ SIN_QTR_SEGMENTS_F32 = 0x44800000 /\
+  lut 0 = 0 /\ lut 1024 = ONE /\ nondecreasing SIN_QTR_LUT_BITS = true /\
+  forallb (fun x => x <=? ONE) SIN_QTR_LUT_BITS = true.
+Proof. exact lut_facts. Qed.
+Check sin_table_facts :
+  length SIN_QTR_LUT_BITS = 1025%nat /\ SIN_QTR_SEGMENTS = 1024 /\ SIN_QTR_SEGMENTS_F32 = 0x44800000 /\
+  lut 0 = 0 /\ lut 1024 = ONE /\ nondecreasing SIN_QTR_LUT_BITS = true /\
+  forallb (fun x => x <=? ONE) SIN_QTR_LUT_BITS = true.
+Print Assumptions sin_table_facts.
+
+(* Q32.32: conversion from any f32 bit pattern is total and lands in i64 (both converters). *)
+Theorem q32_total : forall b : N,
+  in_i64 (fx_from_f32 b) /\ in_i64 (codec_fx_from_f32 b) /\ in_i64 (dfix_from_f32 b).
+Proof. exact q32_total_l. Qed.
+Check q32_total : forall b : N,
+  in_i64 (fx_from_f32 b) /\ in_i64 (codec_fx_from_f32 b) /\ in_i64 (dfix_from_f32 b).
+Print Assumptions q32_total.
+
+(* DFix64 add / sub / neg are the exact integer result clamped into i64 (saturate, never wrap);
+   mul / div always land in i64. *)
+Theorem q32_saturates : forall a b, in_i64 a -> in_i64 b ->
+  dfix_add a b = Z.max I64_MIN (Z.min I64_MAX (a + b)) /\
+  dfix_sub a b = Z.max I64_MIN (Z.min I64_MAX (a - b)) /\
+  dfix_neg a = Z.max I64_MIN (Z.min I64_MAX (- a)) /\
+  in_i64 (dfix_mul a b) /\ in_i64 (dfix_div a b).
+Proof. exact q32_saturates_l. Qed.
+Check q32_saturates : forall a b, in_i64 a -> in_i64 b ->
+  dfix_add a b = Z.max I64_MIN (Z.min I64_MAX (a + b)) /\
+  dfix_sub a b = Z.max I64_MIN (Z.min I64_MAX (a - b)) /\
+  dfix_neg a = Z.max I64_MIN (Z.min I64_MAX (- a)) /\
+  in_i64 (dfix_mul a b) /\ in_i64 (dfix_div a b).
+Print Assumptions q32_saturates.
+
+(* ... and unless they saturate they are the nearest representable value. *)
+Theorem q32_mul_nearest : forall a b, in_i64 a -> in_i64 b ->
+  (I64_MIN < dfix_mul a b < I64_MAX)%Z -> (Z.abs (dfix_mul a b * 2 ^ 32 - a * b) <= 2 ^ 31)%Z.
+Proof. exact dfix_mul_nearest_l. Qed.
+Check q32_mul_nearest : forall a b, in_i64 a -> in_i64 b ->
+  (I64_MIN < dfix_mul a b < I64_MAX)%Z -> (Z.abs (dfix_mul a b * 2 ^ 32 - a * b) <= 2 ^ 31)%Z.
+Print Assumptions q32_mul_nearest.
+
+Theorem q32_div_nearest : forall a b, in_i64 a -> in_i64 b -> b <> 0%Z ->
+  (I64_MIN < dfix_div a b < I64_MAX)%Z -> (2 * Z.abs (dfix_div a b * b - a * 2 ^ 32) <= Z.abs b)%Z.
+Proof. exact dfix_div_nearest_l. Qed.
+Check q32_div_nearest : forall a b, in_i64 a -> in_i64 b -> b <> 0%Z ->
+  (I64_MIN < dfix_div a b < I64_MAX)%Z -> (2 * Z.abs (dfix_div a b * b - a * 2 ^ 32) <= Z.abs b)%Z.
+Print Assumptions q32_div_nearest.
+
+(* PRNG: next_int stays within the requested inclusive range on both code paths; the state is never
+   all-zero after seeding and a step never reaches the all-zero sink. *)
+Theorem prng_next_int_range : forall fuel st lo hi v st',
+  (- 2 ^ 31 <= lo)%Z -> (hi < 2 ^ 31)%Z ->
+  prng_next_int fuel st lo hi = Some (v, st') -> (lo <= v <= hi)%Z.
+Proof. exact prng_next_int_in_range. Qed.
+Check prng_next_int_range : forall fuel st lo hi v st',
+  (- 2 ^ 31 <= lo)%Z -> (hi < 2 ^ 31)%Z ->
+  prng_next_int fuel st lo hi = Some (v, st') -> (lo <= v <= hi)%Z.
+Print Assumptions prng_next_int_range.
+
+Theorem prng_never_zero_state :
+  (forall s0 s1, prng_from_seed s0 s1 <> (0, 0)) /\
+  (forall seed, prng_from_seed_u64 seed <> (0, 0)) /\
+  (forall s0 s1, s0 < M64 -> s1 < M64 -> (s0, s1) <> (0, 0) -> snd (prng_next_u64 (s0, s1)) <> (0, 0)).
+Proof. exact (conj prng_from_seed_nonzero (conj prng_from_seed_u64_nonzero prng_step_nonzero)). Qed.
+Check prng_never_zero_state :
+  (forall s0 s1, prng_from_seed s0 s1 <> (0, 0)) /\
+  (forall seed, prng_from_seed_u64 seed <> (0, 0)) /\
+  (forall s0 s1, s0 < M64 -> s1 < M64 -> (s0, s1) <> (0, 0) -> snd (prng_next_u64 (s0, s1)) <> (0, 0)).
+Print Assumptions prng_never_zero_state.
+
 (* Non-vacuity: a canonical, finite, non-zero angle (pi/8) whose sine and cosine are non-trivial and
    whose negation flips exactly the sign bit of the sine. *)
 Example c19_nonvacuous :
@@ -82,3 +161,14 @@ Proof.
   split; [discriminate|]. split; [exact flocq_prims_wf|].
   vm_compute. repeat split; reflexivity.
 Qed.
+
+(* Non-vacuity for the fixed-point and PRNG theorems: an unsaturated product and quotient that need
+   rounding, a saturating sum, and a next_int call that returns a value on the rejection path. *)
+Example c19_nonvacuous_fixed_prng :
+  in_i64 6442450945%Z /\ in_i64 (-3)%Z /\
+  (I64_MIN < dfix_mul 6442450945 (-3) < I64_MAX)%Z /\ dfix_mul 6442450945 (-3) = (-4)%Z /\
+  (I64_MIN < dfix_div 6442450945 (-3) < I64_MAX)%Z /\ dfix_div 6442450945 (-3) = (-9223372038286226091)%Z /\
+  dfix_add I64_MAX 1 = I64_MAX /\ dfix_neg I64_MIN = I64_MAX /\
+  fx_from_f32 0x3fc00000 = 6442450944%Z /\ fx_from_f32 0x7f7fffff = I64_MAX /\
+  prng_next_int 64 (prng_from_seed 42 99) (-10) 10 = Some (5%Z, (1513209474797682761, 5016521801728)).
+Proof. vm_compute. repeat split; intros; try discriminate; reflexivity. Qed.
